@@ -22,7 +22,8 @@ UID_RE = re.compile(r"_[a-z0-9]{8}$")
 # listing after every operation shows that none of them survives.
 TRANSIENT = re.compile(
     r"^__splink__(m_u_counts|agreement_pattern_counts|df_edges_with_self_loops|df_neighbours.*|"
-    r"df_representatives.*|representatives_.*|df_root_rows)$")
+    r"df_representatives.*|representatives_.*|df_root_rows|clustering_output_final|stable_nodes_at_new_threshold|"
+    r"nodes_in_play|edges_in_play|clusters_at_threshold)$")
 
 FN = ["ann", "bob", "cat", "ann", "bob", "ann", "dan", "eve", "ann", "bob", "cat", "dan", "eve", "ann"]
 SN = ["x", "y", "x", "x", "y", "z", "z", "x", "y", "y", "x", "z", "x", "z"]
@@ -36,10 +37,18 @@ def data_rows(version: int, offset: int = 0) -> list[dict]:
     for i in range(n):
         fn = FN[(i + 3 * version) % n] if (i + version) % 3 == 0 else FN[i]
         sn = SN[(i + version) % n] if i % 4 == 0 else SN[i]
-        rows.append({"unique_id": i + offset, "first_name": fn, "surname": sn, "city": CT[i]})
+        rows.append({"unique_id": i + offset, "first_name": fn, "surname": sn, "city": CT[i], "grp": (i + version) % 5})
     for k in range(version % 3):
-        rows.append({"unique_id": n + k + offset, "first_name": FN[k], "surname": SN[k + 1], "city": CT[k]})
+        rows.append({"unique_id": n + k + offset, "first_name": FN[k], "surname": SN[k + 1], "city": CT[k], "grp": k})
     return rows
+
+
+def label_rows(table: str, offset: int = 0, table_r: str | None = None, offset_r: int | None = None) -> list[dict]:
+    pairs = [(0, 3, 1.0), (1, 4, 1.0), (0, 1, 0.0), (2, 10, 1.0), (5, 8, 0.0), (6, 11, 1.0)]
+    table_r = table if table_r is None else table_r
+    offset_r = offset if offset_r is None else offset_r
+    return [{"unique_id_l": a + offset, "unique_id_r": b + offset_r, "source_dataset_l": table, "source_dataset_r": table_r,
+             "clerical_match_score": c} for a, b, c in pairs]
 
 
 def lookup_rows(col: str, ver: int) -> list[dict]:
@@ -62,7 +71,7 @@ def settings_creator(link_type="dedupe_only"):
 
 
 UID_NAMES = re.compile(
-    r"^(__splink__df_tf_(?:first_name|surname|city)|__splink__df_new_records|"
+    r"^(__splink__df_tf_(?:first_name|surname|city)|__splink__df_new_records|__splink__df_labels|"
     r"__splink__compare_two_records_(?:left|right)|__splink__compare_records_(?:left|right)|"
     r"__splink__realtime_compare_records|__splink__df_concat_with_tf|__splink__df_predict)_[a-z0-9]{8}$")
 
@@ -81,12 +90,16 @@ class World:
     """One Linker on one DatabaseAPI over a database that holds the input table `inp`."""
 
     def __init__(self, backend: str, version: int = 0, path: str | None = None, settings=None,
-                 table: str = "inp", api=None, offset: int = 0, create_input: bool = True):
+                 table: str = "inp", api=None, offset: int = 0, create_input: bool = True, link: bool = False):
         from splink import Linker
         self.backend = backend
         self.table = table
         self.version = version
         self.offset = offset
+        self.link = link
+        # link world: two input tables (second one with ids shifted by 100), link_and_dedupe
+        self.tables = [table, table + "_b"] if link else [table]
+        self.link_type = "link_and_dedupe" if link else "dedupe_only"
         if api is None:
             if backend == "duckdb":
                 con = duckdb.connect(path or ":memory:")
@@ -102,7 +115,9 @@ class World:
         self.api = api
         if create_input:
             self.write_input(version)
-        self.linker = Linker(table, settings if settings is not None else settings_creator(), api)
+        self.linker = Linker(self.tables if link else table,
+                             settings if settings is not None else settings_creator(self.link_type), api,
+                             **({"input_table_aliases": self.tables} if link else {}))
         su.quiet()
         self.cache = self.linker._intermediate_table_cache
         self.registered: dict[str, int] = {}
@@ -112,17 +127,17 @@ class World:
 
     # ------------------------------------------------------------------ data
     def write_input(self, version: int):
-        df = pd.DataFrame(data_rows(version, self.offset))
-        for c in ("first_name", "surname", "city"):
-            df[c] = df[c].astype("string")
-        if self.backend == "duckdb":
-            self.con.register("__c07_df", df)
-            self.con.execute(f"create or replace table {self.table} as select * from __c07_df")
-            self.con.unregister("__c07_df")
-        else:
-            self.con.execute(f"drop table if exists {self.table}")
-            df.astype({"first_name": "object", "surname": "object", "city": "object"}).to_sql(
-                self.table, self.con, index=False)
+        for k, t in enumerate(self.tables):
+            df = pd.DataFrame(data_rows(version + 2 * k, self.offset + 100 * k))
+            for c in ("first_name", "surname", "city"):
+                df[c] = df[c].astype("string")
+            if self.backend == "duckdb":
+                self.con.register("__c07_df", df)
+                self.con.execute(f"create or replace table {t} as select * from __c07_df")
+                self.con.unregister("__c07_df")
+            else:
+                self.con.execute(f"drop table if exists {t}")
+                df.astype({"first_name": "object", "surname": "object", "city": "object"}).to_sql(t, self.con, index=False)
         self.version = version
 
     def model_json(self) -> dict:
@@ -191,7 +206,9 @@ class World:
                     if "already exists" not in str(e):
                         raise
             elif kind == "fm":
-                rec = {"unique_id": 900 + self.offset, "first_name": "ann", "surname": "x", "city": "l"}
+                rec = {"unique_id": 900 + self.offset, "first_name": "ann", "surname": "x", "city": "l", "grp": 0}
+                if self.link:
+                    rec["source_dataset"] = "new"
                 lk.inference.find_matches_to_new_records([rec], blocking_rules=[])
                 term = "FindMatches"
             elif kind == "c2":
@@ -203,6 +220,14 @@ class World:
                 thr = [0.5, 0.9][op[1]]
                 lk.clustering.cluster_pairwise_predictions_at_threshold(lk.inference.predict(), thr)
                 term = f"(Cluster {coq_nat(op[1])})"
+            elif kind == "sbl":
+                # single best links needs source datasets: link world only (the dedupe world raises loudly)
+                thr = [0.5, 0.9][op[1]]
+                self.last_output = lk.clustering.cluster_using_single_best_links(
+                    lk.inference.predict(), duplicate_free_datasets=[self.tables[-1]], threshold_match_probability=thr)
+                term = f"(Cluster {coq_nat(10 + op[1])})"
+            elif kind in NEW_OPS:
+                term = self.apply_new(op)
             elif kind == "inv":
                 had = len(self.cache) > 0
                 lk.table_management.invalidate_cache()
@@ -229,6 +254,99 @@ class World:
             term = None
         return term, raised
 
+    def labels(self):
+        if self.link:
+            rows = label_rows(self.tables[0], self.offset, self.tables[1], self.offset + 100)
+        else:
+            rows = label_rows(self.table, self.offset)
+        return self.linker.table_management.register_labels_table(pd.DataFrame(rows))
+
+    def apply_new(self, op: tuple):
+        """Second-wave operations; stores the returned table (if any) in self.last_output."""
+        from splink import block_on
+        from splink.blocking_analysis import (count_comparisons_from_blocking_rule,
+                                              cumulative_comparisons_to_be_scored_from_blocking_rules_data, n_largest_blocks)
+        from splink.exploratory import completeness_chart, profile_columns
+        from splink.internals.clustering import cluster_pairwise_predictions_at_multiple_thresholds
+        lk, kind = self.linker, op[0]
+        rules = [block_on("surname"), block_on("city")]
+        self.last_output = None
+        if kind == "acc_col":
+            self.last_output = lk.evaluation.accuracy_analysis_from_labels_column("grp", output_type="table")
+            return "AccuracyColumn"
+        if kind == "err_col":
+            self.last_output = lk.evaluation.prediction_errors_from_labels_column("grp")
+            return "ErrorsColumn"
+        if kind == "acc_tab":
+            self.last_output = lk.evaluation.accuracy_analysis_from_labels_table(self.labels(), output_type="table")
+            return "AccuracyTable"
+        if kind == "err_tab":
+            self.last_output = lk.evaluation.prediction_errors_from_labels_table(self.labels())
+            return "ErrorsTable"
+        if kind == "m_col":
+            lk.training.estimate_m_from_label_column("grp")
+            self.params = self.param_id()
+            return f"(EstimateMColumn {coq_nat(self.params)})"
+        if kind == "m_pair":
+            lk.training.estimate_m_from_pairwise_labels(self.labels())
+            self.params = self.param_id()
+            return f"(EstimateMPairwise {coq_nat(self.params)})"
+        if kind == "unlink":
+            lk.evaluation.unlinkables_chart(as_dict=True)
+            return "Unlinkables"
+        if kind == "profile":
+            profile_columns(self.tables, self.api, column_expressions=["first_name", "city"])
+            return "Profile"
+        if kind == "complete":
+            completeness_chart(self.tables, self.api, cols=["first_name", "surname"])
+            return "Completeness"
+        if kind == "ba_count":
+            count_comparisons_from_blocking_rule(table_or_tables=self.tables, blocking_rule=rules[op[1]],
+                                                 link_type=self.link_type, db_api=self.api)
+            return f"(BlockingCount {coq_nat(op[1])})"
+        if kind == "ba_cum":
+            cumulative_comparisons_to_be_scored_from_blocking_rules_data(
+                table_or_tables=self.tables, blocking_rules=rules, link_type=self.link_type, db_api=self.api)
+            return "BlockingCumulative"
+        if kind == "ba_nl":
+            self.last_output = n_largest_blocks(table_or_tables=self.tables, blocking_rule=rules[op[1]],
+                                                link_type=self.link_type, db_api=self.api)
+            return f"(BlockingLargest {coq_nat(op[1])})"
+        if kind == "multi":
+            p = lk.inference.predict()
+            self.last_output = cluster_pairwise_predictions_at_multiple_thresholds(
+                self.table, p.physical_name, self.api, "unique_id", match_probability_thresholds=[0.5, 0.9])
+            return "ClusterMulti"
+        if kind == "metrics":
+            thr = [0.5, 0.9][op[1]]
+            p = lk.inference.predict()
+            c = lk.clustering.cluster_pairwise_predictions_at_threshold(p, thr)
+            if not any(r["match_probability"] >= thr for r in su.records(p)):
+                # no edge reaches the threshold: compute_graph_metrics hands igraph an empty frame and raises (outside
+                # C07, reported to the coordinator); the operation degenerates to predict + cluster
+                self.last_output = c
+                return f"(Cluster {coq_nat(op[1])})"
+            res = lk.clustering.compute_graph_metrics(p, c, threshold_match_probability=thr)
+            self.last_output = res.nodes
+            return f"(GraphMetrics {coq_nat(op[1])})"
+        raise KeyError(kind)
+
+    def output_rows(self, op: tuple):
+        """Rows of the table the operation returns (None when it returns no table)."""
+        self.last_output = None
+        kind = op[0]
+        if kind == "predict":
+            return su.records(self.linker.inference.predict())
+        if kind == "detlink":
+            return su.records(self.linker.inference.deterministic_link())
+        if kind == "cluster":
+            return su.records(self.linker.clustering.cluster_pairwise_predictions_at_threshold(
+                self.linker.inference.predict(), [0.5, 0.9][op[1]]))
+        term, raised = self.apply(op)
+        if raised:
+            raise RuntimeError(raised)
+        return su.records(self.last_output) if self.last_output is not None else None
+
     # ------------------------------------------------------------------ oracle
     def predict_rows(self):
         return su.records(self.linker.inference.predict())
@@ -236,7 +354,7 @@ class World:
     def fresh(self) -> "World":
         """A fresh Linker on a new database with the same input rows, the saved model and the
         currently registered lookups."""
-        w = World(self.backend, self.version, settings=self.model_json(), table=self.table, offset=self.offset)
+        w = World(self.backend, self.version, settings=self.model_json(), table=self.table, offset=self.offset, link=self.link)
         for col, ver in self.registered.items():
             w.linker.table_management.register_term_frequency_lookup(pd.DataFrame(lookup_rows(col, ver)), col)
         return w
@@ -246,6 +364,36 @@ class World:
             self.con.close()
         except Exception:  # noqa: BLE001
             pass
+
+
+NEW_OPS = {"acc_col", "err_col", "acc_tab", "err_tab", "m_col", "m_pair", "unlink", "profile", "complete", "ba_count",
+           "ba_cum", "ba_nl", "multi", "metrics"}
+TABLE_OPS = [("predict",), ("detlink",), ("cluster", 0), ("acc_col",), ("err_col",), ("acc_tab",), ("err_tab",),
+             ("ba_nl", 0), ("multi",), ("sbl", 0)]
+
+
+def table_diff(a: list[dict], b: list[dict], tol=1e-9):
+    """Generic bag comparison of two result tables (floats within tol)."""
+    if a is None or b is None:
+        return None if a is b else {"why": "one side returned no table"}
+    if (a and b) and set(a[0]) != set(b[0]):
+        return {"why": "different columns", "only_history": sorted(set(a[0]) - set(b[0])), "only_fresh": sorted(set(b[0]) - set(a[0]))}
+    if len(a) != len(b):
+        return {"why": "different number of rows", "history": len(a), "fresh": len(b)}
+
+    def canon(r):
+        return tuple((k, (round(v, 6) if isinstance(v, float) and not math.isnan(v) else repr(v))) for k, v in sorted(r.items()))
+    sa, sb = sorted(a, key=lambda r: repr(canon(r))), sorted(b, key=lambda r: repr(canon(r)))
+    for ra, rb in zip(sa, sb):
+        for c in ra:
+            x, y = ra[c], rb[c]
+            if isinstance(x, float) and isinstance(y, float):
+                if (math.isnan(x) and math.isnan(y)) or x == y or abs(x - y) <= tol * max(1.0, abs(x), abs(y)):
+                    continue
+                return {"why": "value", "column": c, "history": x, "fresh": y, "row": {k: ra[k] for k in list(ra)[:6]}}
+            if x != y:
+                return {"why": "value", "column": c, "history": x, "fresh": y, "row": {k: ra[k] for k in list(ra)[:6]}}
+    return None
 
 
 def rows_diff(a: list[dict], b: list[dict], tol=1e-9):
@@ -299,8 +447,10 @@ Definition ent_eqb (a b : string * bool * string * bool) :=
 Definition cnt {A} (e : A -> A -> bool) (x : A) (l : list A) := List.length (filter (e x) l).
 Definition bag_eqb {A} (e : A -> A -> bool) (a b : list A) : bool :=
   Nat.eqb (List.length a) (List.length b) && forallb (fun x => Nat.eqb (cnt e x a) (cnt e x b)) (a ++ b).
+(* tables of data-dependent loops are outside the trace (see TRANSIENT in harness/c07_x.py) *)
+Definition untraced (t : string) : bool := String.eqb t MU || String.eqb t CCFINAL || String.eqb t BRIDGES.
 Definition execs (tr : list event) : list string :=
-  flat_map (fun e => match e with Exec t => [t] | _ => [] end) tr.
+  flat_map (fun e => match e with Exec t => if untraced t then [] else [t] | _ => [] end) tr.
 Definition hits (tr : list event) : list (string * string) :=
   flat_map (fun e => match e with Hit t p => [(t, p)] | _ => [] end) tr.
 Definition obs := (list string * list (string * string) * list (string * bool * string * bool))%type.
@@ -352,10 +502,15 @@ def coq_obs(ex, hits, listing) -> str:
     return f"({e}, {h}, {c})"
 
 
-def coq_init(table: str, version: int, tfcols: list[str], params: int, fixes: dict) -> str:
+def coq_init(table, version: int, tfcols: list[str], params: int, fixes: dict) -> str:
+    tables = [table] if isinstance(table, str) else list(table)
+    return _coq_init(tables, version, tfcols, params, fixes)
+
+
+def _coq_init(tables: list[str], version: int, tfcols: list[str], params: int, fixes: dict) -> str:
     fx = (f"{{| fx77 := {coq_bool(fixes['fx77'])}; fx716 := {coq_bool(fixes['fx716'])}; "
           f"fx715 := {coq_bool(fixes.get('fx715', False))} |}}")
-    return (f"(init_state K [LPlain {coq_string(table)}] {coq_nat(version)} "
+    return (f"(init_state K {coq_list(['LPlain ' + coq_string(t) for t in tables])} {coq_nat(version)} "
             f"{coq_list([coq_string(c) for c in tfcols], 'string')} {coq_nat(params)} 5 6 {fx})")
 
 
